@@ -482,7 +482,8 @@ def render_ts(case):
             "emits": "{ emits: ['x'] }", "emits_quoted": "{ \"emits\": ['x'] }", "name": "{ name: 'N' }", "name_quoted": "{ 'name': 'N' }",
             "all": "{ name: 'N', props: ['u'], emits: ['x'] }", "inheritAttrs": "{ inheritAttrs: false }",
             "spread_only": "{ ...o }", "spread_then_emits": "{ ...o, emits: ['x'] }", "emits_then_spread": "{ emits: ['x'], ...o }",
-            "spread_empty": "{ ...e }", "ident": "o", "ident_empty": "e", "call": "mk()",
+            "spread_empty": "{ ...e }", "two_spreads_oe": "{ ...o, ...e }", "two_spreads_eo": "{ ...e, ...o }",
+            "two_spreads_om": "{ ...o, ...mk() }", "ident": "o", "ident_empty": "e", "call": "mk()",
         }
         callee = "defineComponent"
         head = []
@@ -584,7 +585,7 @@ def render_ts(case):
             dflt = "{ [kname]: 'dk', " + ", ".join(parts) + " }"
         else:
             raise ValueError("defaults form " + form)
-        ptype = "{ a?: string, b?: number, cb?: () => void, 'q-k'?: string, z?: boolean }"
+        ptype = "{ a?: string, b?: number, cb?: () => void, 'q-k'?: string, z?: boolean, u?: (() => void) | string }"
         lines += cx.prelude
         lines.append(f"export const C = defineComponent((props: {ptype} = {dflt}) => () => null)")
         return {"case": case["case"], "src": "\n".join(lines) + "\n", "lang": "tsx",
